@@ -59,6 +59,13 @@ let () =
     | ["S"; dir; h] -> print_endline (show_res show_scan (db_scan !d (dir = "f") (halt_of h)))
     | ["F"; k; dir; h] -> print_endline (show_res show_scan (db_scan_from !d (unhex k) (dir = "f") (halt_of h)))
     | ["Q"; a; b; h] -> print_endline (show_res show_scan (db_scan_range !d (unhex a) (unhex b) (halt_of h)))
+    | [("QA" | "QB") as o; a; n; h] ->
+      (* bounds that alias one caller buffer: the full key and its first n bytes *)
+      let full = unhex a in
+      let rec take k l = match l with x :: r when k > 0 -> x :: take (k - 1) r | _ -> [] in
+      let part = take (int_of_string n) full in
+      let (x, y) = if o = "QA" then (full, part) else (part, full) in
+      print_endline (show_res show_scan (db_scan_range !d x y (halt_of h)))
     | ["D"] ->
       let s = !d.st in
       let i z = string_of_int (int_of_z z) in
